@@ -363,6 +363,10 @@ fn one(args: &[String]) -> i32 {
     }
     let scens = registry::scenarios(&prop);
     println!("plan: {}", serde_json::to_string_pretty(&plan).unwrap());
+    if flag(args, "--plan-only") {
+        return 0;
+    }
+    let _ = std::io::stdout().flush();
     let rep = scens[which].run(&plan);
     println!("outcome: {}", outcome_json(&rep.outcome));
     println!("faults: {:?} probes: {:?}", rep.faults, rep.probes);
